@@ -46,7 +46,7 @@ TECHNIQUE = 'runtime monitoring: event-trace oracle (audit hooks + recording ope
 XS = 'http://www.w3.org/2001/XMLSchema'
 XSI = 'http://www.w3.org/2001/XMLSchema-instance'
 MODES = ('all', 'none', 'local', 'remote', 'sandbox')
-MAIN_KINDS = ('path', 'file_url', 'text', 'open_file', 'remote_url')
+MAIN_KINDS = ('path', 'file_url', 'text', 'open_file', 'remote_url', 'text_remote_base')
 MECHS = ('include', 'redefine', 'override', 'import', 'locations', 'mapper_dict', 'mapper_call', 'hint_child', 'hint_demand', 'hint_pkg')
 IMP_MECHS = ('import', 'locations', 'hint_child', 'hint_demand', 'hint_pkg')
 REMOTE_BASE = 'http://vk.example/base/sand/'
@@ -172,7 +172,7 @@ def allowed(mode, cls, main_kind):
 
 def main_denied(mode, main_kind):
     """Is opening the main source itself outside what the mode allows?"""
-    if main_kind in ('text', 'open_file'):
+    if main_kind in ('text', 'open_file', 'text_remote_base'):
         return False
     local = main_kind in ('path', 'file_url')
     return mode == 'none' or (mode == 'remote' and local) or (mode in ('local', 'sandbox') and not local)
@@ -231,6 +231,10 @@ def run_cell(res, xmlschema, fx, mode, main_kind, mech, cls, spell_name, loc):
     elif main_kind == 'open_file':
         fobj = source = open(fx.main_path, 'rb')
         kwargs['base_url'] = fx.sand
+    elif main_kind == 'text_remote_base':
+        # text with a remote base URL: relative locations are remote URLs below that base
+        source = text
+        kwargs['base_url'] = REMOTE_BASE.rstrip('/')
     else:
         source = REMOTE_BASE + 'main.xsd'
         if mode == 'sandbox':
@@ -288,9 +292,11 @@ def run_cell(res, xmlschema, fx, mode, main_kind, mech, cls, spell_name, loc):
                 touched.add('unexpected:document-of-the-call')
         elif p.startswith(fx.root) and os.path.realpath(fx.main_path) != p and os.path.isfile(p):
             touched.add('unexpected:' + os.path.relpath(p, fx.root))
+    main_url = REMOTE_BASE + 'main.xsd' if main_kind == 'remote_url' else None
     for url in opener.asked:
         low = url.lower()
-        if low.startswith(('http:', 'https:', 'ftp:')) and not url.startswith(REMOTE_BASE):
+        if low.startswith(('http:', 'https:', 'ftp:')) and url != main_url:
+            # every remote request other than the main source itself, also below the remote base
             touched.add('remote_' + low.split(':')[0])
     sockets = [e for e in events if e[0].startswith('socket')]
     main_opened = any(os.path.realpath(fx.main_path) == p for p in audit.opened_paths(events)) or \
